@@ -100,7 +100,7 @@ Definition label_okb (A : ast) (u : union_t) (l : string) : bool :=
   match get_const A l with
   | Some (ConstValue v) => int_discb A u && lit_okb v
   | Some (EnumValue e m) =>
-    basic_type_eqb (un_sw_type u) (Ident e) &&
+    (basic_type_eqb (un_sw_type u) (Ident e) || basic_type_eqb (un_sw_type u) U32 || basic_type_eqb (un_sw_type u) I32) &&
     match get_type A e with
     | Some (TEnum en) => existsb (fun p => String.eqb (fst p) m) (en_variants en)
     | _ => false
@@ -121,7 +121,8 @@ Proof.
   unfold label_okb, label_ok. destruct (get_const A l) as [[v|e m]|].
   - intros H. apply Bool.andb_true_iff in H as [H1 H2]. split; [now apply int_discb_ok|now apply lit_okb_ok].
   - intros H. apply Bool.andb_true_iff in H as [H1 H2]. split.
-    + destruct (un_sw_type u); cbn in H1; try discriminate. apply String.eqb_eq in H1. now subst.
+    + destruct (un_sw_type u); cbn in H1; try discriminate; try (right; (now left) || (now right)).
+      rewrite !Bool.orb_false_r in H1. apply String.eqb_eq in H1. subst. now left.
     + destruct (get_type A e) as [[| |en|]|]; try discriminate.
       apply existsb_exists in H2 as [[m' vv] [Hin Hm]]. cbn in Hm. apply String.eqb_eq in Hm. subst m'.
       exists en, vv. split; [reflexivity|exact Hin].
